@@ -177,7 +177,7 @@ theorem cinv_step (s s' : St) (e : Ev) (h : CInv s) (hs : step s e = some s') : 
         · exact h.call id' op' hcall
         · simp only [Call.invoked.injEq] at hcall
           obtain ⟨_, rfl⟩ := hcall
-          exact ⟨c, hc, hg⟩
+          exact ⟨c, hc, hg.1⟩
       · simp at hs
   | exec id =>
     simp only [step] at hs
